@@ -62,9 +62,9 @@ Fors == {ForT(kv, "v", c, b, cd) : kv \in {"", "i"}, c \in Colls, b \in Bodies, 
 Lits == {L(<<"a", " ">>), L(<<" ", "b">>), L(<<" ", "\n", " ">>), L(<<"a", "\n">>)}
 Interps == {I(e, sl, sr) : e \in {V("x"), V("s"), V("n"), V("t"), Bin("/", N(3), N(2)), Bo(TRUE), V("u"), Bin("+", N(1), N(2))}, sl \in BOOLEAN, sr \in BOOLEAN}
 Tif(c, th, el, st) == [k |-> "tif", c |-> c, th |-> th, el |-> el, strip |-> st]
-Tfor(v, coll, body, st) == [k |-> "tfor", v |-> v, coll |-> coll, body |-> body, strip |-> st]
+Tfor(kv, v, coll, body, st) == [k |-> "tfor", kv |-> kv, v |-> v, coll |-> coll, body |-> body, strip |-> st]
 Dirs == {Tif(c, th, el, st) : c \in {Bo(TRUE), Bo(FALSE), Nul, V("bs"), Bin(">", V("x"), N(1))}, th \in {<<L(<<" ", "a", " ">>)>>, <<>>}, el \in {<<>>, <<L(<<"\n", "b", " ">>)>>}, st \in BOOLEAN}
-        \cup {Tfor("v", c, b, st) : c \in {V("t"), V("o"), V("n"), V("s"), Tu(<<>>)}, b \in {<<L(<<" ">>), I(V("v"), FALSE, FALSE), L(<<"\n">>)>>, <<I(V("v"), TRUE, TRUE)>>}, st \in BOOLEAN}
+        \cup {Tfor(kv, "v", c, b, st) : kv \in {"", "i"}, c \in {V("t"), V("o"), V("n"), V("s"), Tu(<<>>)}, b \in {<<L(<<" ">>), I(V("v"), FALSE, FALSE), L(<<"\n">>)>>, <<I(V("v"), TRUE, TRUE)>>, <<I(V("i"), FALSE, FALSE), L(<<" ">>)>>}, st \in BOOLEAN}
 TParts == Lits \cup Interps \cup Dirs
 NoTwoLits(ps) == \A i \in 1..(Len(ps) - 1) : ~(ps[i].k = "lit" /\ ps[i + 1].k = "lit")
 Templates == {T(<<p>>) : p \in TParts} \cup {T(<<p, q>>) : p \in TParts, q \in Lits \cup {I(V("s"), TRUE, FALSE)}}
